@@ -91,9 +91,7 @@ Qed.
 Section Proofs.
   Variable D : Type.
   Variable H : D -> D -> D.
-  Variable Deqb : D -> D -> bool.
   Variable dflt : D.
-  Hypothesis Deqb_spec : forall a b, Deqb a b = true <-> a = b.
 
   Notation znth := (znth D dflt).
   Notation spec_tree := (spec_tree D H dflt).
@@ -197,3 +195,239 @@ Section Proofs.
       unfold MerkleSpec.znth in Hall. rewrite Nat2Z.id in Hall. apply Hall; unfold zlen in *; lia.
   Qed.
 End Proofs.
+
+Section Build.
+  Variable D : Type.
+  Variable H : D -> D -> D.
+  Variable dflt : D.
+  Notation znth := (znth D dflt).
+  Notation spec_tree := (spec_tree D H dflt).
+
+  Lemma znth_app1 (a b : list D) i : 0 <= i < zlen a -> znth (a ++ b) i = znth a i.
+  Proof. intros. unfold MerkleSpec.znth, zlen in *. apply app_nth1. lia. Qed.
+  Lemma znth_app2 (a b : list D) i : zlen a <= i -> znth (a ++ b) i = znth b (i - zlen a).
+  Proof.
+    intros. unfold MerkleSpec.znth, zlen in *. rewrite app_nth2 by lia. f_equal. lia.
+  Qed.
+  Lemma zlen_app (a b : list D) : zlen (a ++ b) = zlen a + zlen b.
+  Proof. unfold zlen. rewrite app_length. lia. Qed.
+  Lemma zlen_firstn (a : list D) k : 0 <= k <= zlen a -> zlen (firstn (Z.to_nat k) a) = k.
+  Proof. intros. unfold zlen in *. rewrite firstn_length. lia. Qed.
+  Lemma znth_firstn (a : list D) k i : 0 <= i < k -> znth (firstn (Z.to_nat k) a) i = znth a i.
+  Proof.
+    intros. unfold MerkleSpec.znth.
+    rewrite <- (firstn_skipn (Z.to_nat k) a) at 2.
+    destruct (Z_lt_dec i (zlen a)) as [Hl|Hl].
+    - rewrite app_nth1; [reflexivity|]. rewrite firstn_length. unfold zlen in Hl. lia.
+    - unfold zlen in Hl. rewrite firstn_all2 by lia. rewrite skipn_all2 by lia. now rewrite app_nil_r.
+  Qed.
+  Lemma znth_skipn (a : list D) (k : nat) i : 0 <= i -> znth (skipn k a) i = znth a (Z.of_nat k + i).
+  Proof.
+    intros. unfold MerkleSpec.znth.
+    replace (Z.to_nat (Z.of_nat k + i)) with (k + Z.to_nat i)%nat by lia.
+    revert a. induction k; intros a; [reflexivity|].
+    destruct a; cbn [skipn Nat.add nth]; [destruct (Z.to_nat i); reflexivity|]. apply IHk.
+  Qed.
+
+  Lemma write_slice_ok (nodes : list D) s src :
+    0 <= s -> s + zlen src <= zlen nodes ->
+    exists r, write_slice D nodes s src = Ok r /\ zlen r = zlen nodes /\
+      forall i, 0 <= i < zlen nodes ->
+        znth r i = if (s <=? i) && (i <? s + zlen src) then znth src (i - s) else znth nodes i.
+  Proof.
+    intros Hs Hb. unfold write_slice.
+    destruct ((0 <=? s) && (s + zlen src <=? zlen nodes)) eqn:E.
+    2:{ apply andb_false_iff in E. destruct E as [E|E]; [apply Z.leb_gt in E|apply Z.leb_gt in E]; lia. }
+    eexists. split; [reflexivity|].
+    pose proof (zlen_nonneg src) as Hsrc.
+    assert (L1 : zlen (firstn (Z.to_nat s) nodes) = s) by (apply zlen_firstn; lia).
+    assert (L3 : zlen (skipn (Z.to_nat s + length src) nodes) = zlen nodes - s - zlen src).
+    { unfold zlen in *. rewrite skipn_length. lia. }
+    split.
+    - rewrite !zlen_app, L1, L3. lia.
+    - intros i Hi.
+      destruct (s <=? i) eqn:E1; cbn [andb].
+      + apply Z.leb_le in E1. rewrite znth_app2 by lia. rewrite L1.
+        destruct (i <? s + zlen src) eqn:E2.
+        * apply Z.ltb_lt in E2. rewrite znth_app1 by lia. reflexivity.
+        * apply Z.ltb_ge in E2. rewrite znth_app2 by lia. rewrite znth_skipn by lia.
+          f_equal. unfold zlen. lia.
+      + apply Z.leb_gt in E1. rewrite znth_app1 by lia. apply znth_firstn. lia.
+  Qed.
+
+  Lemma hash_children_ok (nodes : list D) j :
+    0 <= j -> 2 * j + 1 < zlen nodes ->
+    hash_children D H nodes j = Ok (H (znth nodes (2 * j)) (znth nodes (2 * j + 1))).
+  Proof.
+    intros. unfold hash_children.
+    rewrite (zget_znth D dflt) by lia. rewrite (zget_znth D dflt) by lia.
+    replace (j * 2) with (2 * j) by lia. reflexivity.
+  Qed.
+
+  (* agreement of a node vector with the specification tree on the index range [lo, 2n) and at 0 *)
+  Definition agree (St t : list D) (lo : Z) : Prop :=
+    zlen t = zlen St /\ znth t 0 = znth St 0 /\ forall i, lo <= i < zlen St -> znth t i = znth St i.
+
+  Lemma par_level_ok (leafs St nodes : list D) cnt :
+    tree_ok D H dflt leafs St -> 1 <= cnt -> 2 * cnt <= zlen leafs ->
+    agree St nodes (2 * cnt) ->
+    exists nodes', par_level D H nodes cnt = Ok nodes' /\ agree St nodes' cnt.
+  Proof.
+    intros [A [B [C E]]] Hc Hn [G1 [G2 G3]]. cbv zeta in *. set (n := zlen leafs) in *.
+    unfold par_level.
+    set (g := fun i => H (znth nodes (2 * (cnt + i))) (znth nodes (2 * (cnt + i) + 1))).
+    rewrite (mapO_ok _ g).
+    2:{ intros x Hx. apply zrange_In in Hx. unfold g. apply hash_children_ok; lia. }
+    cbn [obind].
+    destruct (write_slice_ok nodes cnt (map g (zrange 0 (Z.to_nat cnt)))) as [r [R1 [R2 R3]]]; [lia| |].
+    { unfold zlen at 1. rewrite map_length, zrange_length. lia. }
+    exists r. split; [exact R1|].
+    assert (Lm : zlen (map g (zrange 0 (Z.to_nat cnt))) = cnt).
+    { unfold zlen. rewrite map_length, zrange_length. lia. }
+    rewrite Lm in R3.
+    split; [lia|]. split.
+    - rewrite R3 by lia. destruct (cnt <=? 0) eqn:E0; [apply Z.leb_le in E0; lia|]. cbn [andb]. exact G2.
+    - intros i Hi. rewrite R3 by lia.
+      destruct (cnt <=? i) eqn:E1; [|apply Z.leb_gt in E1; lia]. cbn [andb].
+      destruct (i <? cnt + cnt) eqn:E2.
+      + apply Z.ltb_lt in E2. unfold MerkleSpec.znth at 1.
+        rewrite (nth_indep _ dflt (g 0)) by (rewrite map_length, zrange_length; lia).
+        rewrite map_nth. rewrite zrange_nth by lia. unfold g.
+        replace (cnt + (0 + Z.of_nat (Z.to_nat (i - cnt)))) with i by lia.
+        rewrite E by lia. rewrite !G3 by lia. reflexivity.
+      + apply Z.ltb_ge in E2. apply G3. lia.
+  Qed.
+
+  Definition loop_inv (n cnt acc : Z) : Prop :=
+    (exists k, 0 <= k /\ cnt = 2 ^ k /\ n - acc = 2 * cnt) \/ (cnt = 0 /\ n - acc = 1).
+
+  Lemma par_loop_ok (leafs St : list D) fixed cutoff :
+    tree_ok D H dflt leafs St -> (fixed = true \/ 1 <= cutoff) ->
+    forall fuel nodes cnt acc,
+      0 <= cnt < 2 ^ Z.of_nat fuel -> 0 <= acc ->
+      loop_inv (zlen leafs) cnt acc -> agree St nodes (zlen leafs - acc) ->
+      exists nodes' acc', par_loop D H fixed cutoff fuel nodes cnt acc = Ok (nodes', acc') /\
+        1 <= zlen leafs - acc' <= zlen leafs /\ agree St nodes' (zlen leafs - acc').
+  Proof.
+    intros HS Hfc. induction fuel; intros nodes cnt acc Hc Ha Hinv Hag.
+    - assert (cnt = 0) by (cbn in Hc; lia). subst cnt.
+      destruct Hinv as [[k [Hk [Hk2 _]]]|[_ Hinv]].
+      { pose proof (Z.pow_pos_nonneg 2 k). lia. }
+      cbn [par_loop]. unfold par_guard.
+      destruct Hfc as [->|Hcut].
+      + rewrite andb_false_r. exists nodes, acc. split; [reflexivity|]. split; [lia|exact Hag].
+      + destruct (cutoff <=? 0) eqn:E; [apply Z.leb_le in E; lia|]. cbn [andb].
+        exists nodes, acc. split; [reflexivity|]. split; [lia|exact Hag].
+    - cbn [par_loop].
+      destruct (par_guard fixed cutoff cnt) eqn:G.
+      + assert (Hc1 : 1 <= cnt).
+        { unfold par_guard in G. apply andb_true_iff in G. destruct G as [G1 G2]. apply Z.leb_le in G1.
+          destruct Hfc as [->|Hcut]; [apply Z.ltb_lt in G2; lia|lia]. }
+        destruct Hinv as [[k [Hk [Hk2 Hk3]]]|[Hz _]]; [|lia].
+        assert (Hle : 2 * cnt <= zlen leafs) by lia.
+        rewrite Hk3 in Hag.
+        destruct (par_level_ok leafs St nodes cnt HS Hc1 Hle Hag) as [nodes' [P1 P2]].
+        rewrite P1. cbn [obind].
+        apply IHfuel.
+        * rewrite Nat2Z.inj_succ, Z.pow_succ_r in Hc by lia. lia.
+        * lia.
+        * destruct (Z.eq_dec k 0) as [->|Hk0].
+          -- right. cbn in Hk2. subst cnt. cbn. lia.
+          -- left. exists (k - 1). split; [lia|].
+             assert (E2 : 2 ^ k = 2 * 2 ^ (k - 1)).
+             { rewrite <- Z.pow_succ_r by lia. f_equal. lia. }
+             rewrite Hk2, E2. split; [|lia].
+             rewrite Z.mul_comm, Z.div_mul by lia. reflexivity.
+        * replace (zlen leafs - (acc + cnt)) with cnt by lia. exact P2.
+      + exists nodes, acc. split; [reflexivity|]. split; [|exact Hag].
+        destruct Hinv as [[k [Hk [Hk2 Hk3]]]|[Hz Hz2]]; [|lia].
+        pose proof (Z.pow_pos_nonneg 2 k). lia.
+  Qed.
+
+  Lemma seq_loop_ok (leafs St : list D) :
+    tree_ok D H dflt leafs St ->
+    forall (c : nat) nodes, Z.of_nat c + 1 <= zlen leafs -> agree St nodes (Z.of_nat c + 1) ->
+      exists nodes', seq_loop D H nodes (rev (zrange 1 c)) = Ok nodes' /\ agree St nodes' 1.
+  Proof.
+    intros HS. pose proof HS as [A [B [C E]]]. cbv zeta in *.
+    induction c; intros nodes Hc Hag.
+    - exists nodes. split; [reflexivity|exact Hag].
+    - rewrite zrange_snoc, rev_app_distr. cbn [rev app seq_loop].
+      destruct Hag as [G1 [G2 G3]].
+      set (i := 1 + Z.of_nat c).
+      rewrite hash_children_ok by lia. cbn [obind].
+      destruct (write_slice_ok nodes i [H (znth nodes (2 * i)) (znth nodes (2 * i + 1))]) as [r [R1 [R2 R3]]];
+        [lia|unfold zlen at 1; cbn [length]; lia|].
+      rewrite R1. cbn [obind]. apply IHc; [lia|].
+      change (zlen [H (znth nodes (2 * i)) (znth nodes (2 * i + 1))]) with 1 in R3.
+      split; [lia|]. split.
+      + rewrite R3 by lia. destruct (i <=? 0) eqn:E0; [apply Z.leb_le in E0; lia|]. exact G2.
+      + intros j Hj. rewrite R3 by lia.
+        destruct (Z.eq_dec j i) as [->|Hne].
+        * rewrite Z.leb_refl. destruct (i <? i + 1) eqn:E1; [|apply Z.ltb_ge in E1; lia]. cbn [andb].
+          rewrite Z.sub_diag. unfold MerkleSpec.znth at 1. cbn [Z.to_nat nth].
+          rewrite E by lia. rewrite !G3 by lia. reflexivity.
+        * destruct ((i <=? j) && (j <? i + 1)) eqn:E1.
+          { apply andb_true_iff in E1. destruct E1 as [E1 E2]. apply Z.leb_le in E1. apply Z.ltb_lt in E2. lia. }
+          apply G3. lia.
+  Qed.
+
+  Lemma agree_eq (St t : list D) : agree St t 1 -> t = St.
+  Proof.
+    intros [G1 [G2 G3]]. apply (nth_ext _ _ dflt dflt).
+    - unfold zlen in G1. lia.
+    - intros j Hj. destruct j.
+      + exact G2.
+      + specialize (G3 (Z.of_nat (S j))). unfold MerkleSpec.znth in G3. rewrite Nat2Z.id in G3.
+        apply G3. unfold zlen in *. lia.
+  Qed.
+
+  Lemma repeat_nth (d : D) k j : nth j (repeat d k) d = d.
+  Proof. revert j. induction k; intros [|j]; cbn; auto. Qed.
+
+  Theorem build_spec_lemma (fixed : bool) (cutoff : Z) (fuel : nat) (leafs : list D) :
+    (fixed = true \/ 1 <= cutoff) -> is_pow2 (zlen leafs) = true -> zlen leafs < 2 ^ Z.of_nat fuel ->
+    from_digests D H dflt fixed cutoff fuel leafs = Ok (spec_tree leafs).
+  Proof.
+    intros Hfc Hp Hfuel.
+    pose proof (spec_tree_ok D H dflt leafs Hp) as HS.
+    pose proof HS as [A [B [C E]]]. cbv zeta in *.
+    apply is_pow2_spec in Hp. destruct Hp as [h [Hh Hn]].
+    set (St := spec_tree leafs) in *. set (n := zlen leafs) in *.
+    assert (Hn1 : 1 <= n) by (pose proof (Z.pow_pos_nonneg 2 h); lia).
+    unfold from_digests. fold n.
+    destruct (n =? 0) eqn:E0; [apply Z.eqb_eq in E0; lia|].
+    assert (Hp2 : is_pow2 n = true) by (apply is_pow2_spec; exists h; auto).
+    rewrite Hp2. cbn [negb].
+    destruct (write_slice_ok (repeat dflt (Z.to_nat (2 * n))) n leafs) as [r [R1 [R2 R3]]];
+      [lia|unfold zlen at 2; rewrite repeat_length; fold n; lia|].
+    rewrite R1. cbn [obind].
+    assert (Lr : zlen (repeat dflt (Z.to_nat (2 * n))) = 2 * n) by (unfold zlen; rewrite repeat_length; lia).
+    rewrite Lr in *.
+    assert (Hag0 : agree St r (n - 0)).
+    { split; [lia|]. split.
+      - rewrite R3 by lia. destruct (n <=? 0) eqn:E1; [apply Z.leb_le in E1; lia|]. cbn [andb].
+        rewrite B. unfold MerkleSpec.znth. apply repeat_nth.
+      - intros i Hi. rewrite R3 by lia. fold n.
+        destruct (n <=? i) eqn:E1; [|apply Z.leb_gt in E1; lia].
+        destruct (i <? n + n) eqn:E2; [|apply Z.ltb_ge in E2; lia]. cbn [andb].
+        replace i with (n + (i - n)) at 2 by lia. rewrite C by lia. reflexivity. }
+    destruct (par_loop_ok leafs St fixed cutoff HS Hfc fuel r (n / 2) 0) as [nodes1 [acc1 [P1 [P2 P3]]]].
+    - fold n. split; [apply Z.div_pos; lia|]. apply Z.le_lt_trans with n; [|exact Hfuel].
+      apply Z.div_le_upper_bound; lia.
+    - lia.
+    - fold n. destruct (Z.eq_dec h 0) as [->|Hh0].
+      + right. cbn in Hn. rewrite Hn. cbn. lia.
+      + left. exists (h - 1). split; [lia|].
+        assert (E2 : 2 ^ h = 2 * 2 ^ (h - 1)).
+        { rewrite <- Z.pow_succ_r by lia. f_equal. lia. }
+        rewrite Hn, E2. split; [|lia]. rewrite Z.mul_comm, Z.div_mul by lia. reflexivity.
+    - exact Hag0.
+    - rewrite P1. cbn [obind]. fold n in P2, P3.
+      destruct (n <? acc1) eqn:E3; [apply Z.ltb_lt in E3; lia|].
+      destruct (seq_loop_ok leafs St HS (Z.to_nat (n - acc1 - 1)) nodes1) as [nodes2 [Q1 Q2]].
+      + fold n. lia.
+      + replace (Z.of_nat (Z.to_nat (n - acc1 - 1)) + 1) with (n - acc1) by lia. exact P3.
+      + rewrite Q1. f_equal. apply agree_eq. exact Q2.
+  Qed.
+End Build.
